@@ -195,10 +195,18 @@ func (lexer *Lexer) Linenum() int {
 
 func (lex *Lexer) Reset() {
 	lex.stream = nil
+	lex.next = nil
 	lex.tokens = lex.tokens[:0]
 	lex.state = LexerNormal
 	lex.linenum = 1
+	lex.prevrune = 0
 	lex.preBuiltinRune = 0
+	lex.prevToken = Token{}
+	lex.prevPrevToken = Token{}
+	// forget the look-back ring too: twoback() decides whether
+	// a leading '-' or '+' is a sign or an operator from it.
+	lex.priori = 0
+	lex.priorRune = [20]rune{}
 	lex.buffer.Reset()
 }
 
